@@ -134,6 +134,18 @@ def gen():
     m = re.search(r'true => "([^"]*)"\.to_string\(\),\s*false => "([^"]*)"\.to_string\(\)', it)
     if not m: raise Shape('to_bn_bool')
     t_true, t_false = m.group(1), m.group(2)
+    # which operation each built-in name dispatches to (the arms of call_built_in_function)
+    OPS = ['_to_string', '_to_num', '_list_push', '_list_pop', '_list_len', '_read_line', '_error', '_string_split', '_string_join', '_type',
+           '_read_file', '_write_file', '_delete_file', '_create_dir', '_read_dir', '_delete_dir', '_file_or_dir']
+    mm = re.search(r'match self\.built_in_functions\.get_name\(&func_token\.lexeme\)\.as_str\(\) \{(.*?)\n            built_in_function_name =>', it, re.S)
+    if not mm: raise Shape('call_built_in_function dispatch')
+    arms = re.findall(r'\n            "([^"]+)" => \{(.*?)(?=\n            "[^"]+" => \{|\Z)', mm.group(1), re.S)
+    builtin_ops = []
+    for name, body in arms:
+        f = re.search(r'BuiltInFunctionList::(_\w+)\(', body)
+        if not f or f.group(1) not in OPS: raise Shape('built-in arm ' + name)
+        builtin_ops.append((name, OPS.index(f.group(1))))
+    if len(builtin_ops) != len(arms) or not arms: raise Shape('built-in arms')
     m = re.search(r'if self\.total_allocated_object_count >= (\d+) \{', it)
     if not m: raise Shape('gc threshold')
     threshold = int(m.group(1))
@@ -171,6 +183,7 @@ def gen():
     o.append('Definition ident_extra_chars : list N := [' + '; '.join(str(ord(c)) for c in extra) + '].')
     o.append('Definition numeric_ranges : list (N * N) :=\n  [' + '; '.join('(%d, %d)' % r for r in ranges) + '].')
     o.append('Definition builtin_names : list text :=\n  [' + ';\n   '.join(coq_text(b) for b in builtins) + '].')
+    o.append('Definition builtin_ops : list (text * nat) :=\n  [' + ';\n   '.join('(%s, %d%%nat)' % (coq_text(n), k) for n, k in builtin_ops) + '].')
     o.append('Definition builtins_bn_to_en : list (N * N) := [' + '; '.join('(%d, %d)' % (ord(a), ord(b)) for a, b in bn_en) + '].')
     o.append('Definition builtins_en_to_bn : list (N * N) := [' + '; '.join('(%d, %d)' % (ord(a), ord(b)) for a, b in en_bn) + '].')
     o.append('Definition print_char_map : list (N * N) := [' + '; '.join('(%d, %d)' % (ord(a), ord(b)) for a, b in pr) + '].')
